@@ -432,6 +432,8 @@ func (r *runner) run() int {
 	violLines := []string{}
 	knownConfirmed := map[string]bool{}
 	var spuriousKnown []string
+	violReported := map[string]bool{}
+	notRepro := map[string][]string{}
 	if !r.noReplay && len(pend) > 0 {
 		byPkg := map[string][]replayCase{}
 		for _, p := range pend {
@@ -479,12 +481,17 @@ func (r *runner) run() int {
 						p.label, p.c.Harness, o.Failed, o.Panic, o.AssumeViolated, o.Reached, p.human)
 				}
 			case "violation", "known":
+				ck := p.c.Harness + "|" + p.clause
 				if reproduced(p.clause, p.isPanic, o) {
 					validated++
 					if p.kind == "known" {
 						knownConfirmed[p.key] = true
 						continue
 					}
+					if violReported[ck] {
+						continue // one VIOLATION line per harness and clause
+					}
+					violReported[ck] = true
 					rf := replayFile{Property: r.prop, Package: p.pkg, Clause: p.clause, IsPanic: p.isPanic, Where: p.where, Inputs: p.human, Case: p.c}
 					path := filepath.Join(verifDir, "replays", fmt.Sprintf("%s_%s.json", r.prop, sanitize(p.c.ID)))
 					b, _ := json.MarshalIndent(rf, "", " ")
@@ -497,12 +504,23 @@ func (r *runner) run() int {
 					spuriousKnown = append(spuriousKnown, p.key)
 					fmt.Printf("    note: a counterexample in the region of %s for %q did not replay natively (inputs=%v)\n", p.key, p.clause, p.human)
 				} else {
-					spurious++
-					fmt.Printf("    SPURIOUS (%s): solver counterexample for %q in %s does not reproduce natively (failed=%v panic=%q assume=%q) inputs=%v at %s\n",
-						p.kind, p.clause, p.c.Harness, o.Failed, o.Panic, o.AssumeViolated, p.human, p.where)
+					// decided after all counterexamples of the clause were replayed (below)
+					notRepro[ck] = append(notRepro[ck], fmt.Sprintf("    SPURIOUS (%s): solver counterexample for %q in %s does not reproduce natively (failed=%v panic=%q assume=%q) inputs=%v at %s",
+						p.kind, p.clause, p.c.Harness, o.Failed, o.Panic, o.AssumeViolated, p.human, p.where))
 				}
 			}
 		}
+	}
+	// a clause none of whose counterexamples reproduced: the encoding, a stub or the replay rig is
+	// wrong for it - no verdict. If another counterexample of the same clause reproduced, the
+	// ones that did not are environment faults the native rig cannot realise (noted only).
+	for ck, lines := range notRepro {
+		if violReported[ck] {
+			fmt.Printf("    note: %d further counterexample(s) of %q could not be realised natively\n", len(lines), ck)
+			continue
+		}
+		spurious++
+		fmt.Println(lines[0])
 	}
 	for _, key := range spuriousKnown {
 		if !knownConfirmed[key] {
